@@ -8,6 +8,7 @@ import shutil
 import tempfile
 
 import common as C
+import c16_fs
 import c16_nested
 
 COQ_FILES = ("L5_Stores/Config.v", "L5_Stores/ConfigProofs.v", "Properties/C16.v")
@@ -144,7 +145,22 @@ def run(rep, tier, seed, proof_ok):
                 "inspected (a link to a blob of the internal directory for every kept path, nothing for the others); expected values, expected "
                 "executions of the bodies (a body runs iff reached and no blob of that version in the shared internal directory) and expected "
                 "failures (a path the view never kept) come from a model of the generated program; quick: 18 histories (each kind 3 times, "
-                "rotating pipeline / spelling / cache / entry from the seed), thorough: kinds x pipelines x entries x 3 drawn spellings")
+                "rotating pipeline / spelling / cache / entry from the seed), thorough: kinds x pipelines x entries x 3 drawn spellings; plus the FILE "
+                "SYSTEMS the directories live on (harness/c16_fs.py; the second file system is found by st_dev among /dev/shm, /run/user/*, /var/tmp, "
+                "/tmp and probed with a rename that must fail with EXDEV; none found = dimension skipped, controls only, see input_distribution): "
+                "placements {view B on the other file system | internal directory + view B there, view A alone here | everything there, working "
+                "directories here | both views there | the configured name of view B here with a symbolic link among its ancestors crossing | "
+                "idem for the internal directory | pre-existing internal directory whose blobs/ is a link to the other file system | pre-existing "
+                "data directories in which the directory of a path segment is on the other file system | usable pre-existing directories in "
+                "read-only parents (skipped as root)} x directory shapes {absolute, trailing slash, relative, nested non-existing, relative "
+                "nested} x cache_objects; history over the two views of one internal directory: A keeps /p, keeps the same function under /d/e/q "
+                "(no recomputation), B does not serve /p, keeps /p (served from the shared blobs), keeps a new version under /d/e/q, chdir, "
+                "loads, keeps the new version under /p (served), A still serves its own values; a second process started elsewhere loads B's "
+                "paths, re-keeps (served), keeps an old version under a new path (served), A does not serve that path and catches up without "
+                "recomputation; last the physical data directories are inspected (every kept path a link to a blob of the internal directory); "
+                "plus nested-keep histories (above) with view B / view A / all views / the internal directory on the other file system; quick: "
+                "1 control + every placement twice with rotating shapes / cache options + 3 nested-keep histories, thorough: placements x {one, "
+                "two file systems} x shapes x cache_objects + 12 nested-keep histories")
     shapes = list(DIR_SHAPES)
     cases = []
     for k, (a, b) in enumerate(itertools.product(shapes, shapes)):
@@ -155,10 +171,12 @@ def run(rep, tier, seed, proof_ok):
                 cases.append({"ishape": a, "dshape": b, "cache": c})
     with cf.ThreadPoolExecutor(max_workers=C.NPROC) as ex:
         nested = c16_nested.start(tier, proof_ok, rng, ex, CACHE)
+        fsys = c16_fs.start(tier, proof_ok, rng, ex, CACHE)
         res = list(ex.map(run_case, cases))
         vres = list(ex.map(run_views, [{"cache": c} for c in CACHE]))
         sres = list(ex.map(run_same_strings, [{"cache": c, "internal": i} for c in CACHE[:3] for i in ("absolute", "relative")]))
         nested = c16_nested.collect(rep, nested)
+        nested.update(c16_fs.collect(rep, fsys))
     for r in sres:
         c = r["case"]
         rep.case("same-strings:" + json.dumps(c))
@@ -222,6 +240,8 @@ def run(rep, tier, seed, proof_ok):
 
 def replay(path):
     r = json.load(open(path))["replay"]
+    if "fs_case" in r:
+        return c16_fs.replay(r)
     if "nested_case" in r:
         return c16_nested.replay(r)
     out = run_case(r["case"]) if "ishape" in r.get("case", {}) else run_views(r["case"])
